@@ -26,10 +26,16 @@ pub struct Machine {
 impl Machine {
     pub fn new(adapter: Arc<RwLock<Box<dyn MachineAdapter + Send + Sync>>>) -> Self {
         let adap = adapter.clone();
+        #[cfg(mos_verif)]
+        crate::verif_hooks::pre_spawn();
         let poller = thread::spawn(move || {
+            #[cfg(mos_verif)]
+            crate::verif_hooks::thread_start("poller");
             log::debug!("Starting machine poller thread.");
             loop {
                 {
+                    #[cfg(mos_verif)]
+                    crate::verif_hooks::point_write("p:adapter.write", &adap);
                     let mut adap = adap.write().unwrap();
                     if !adap.is_connected()? {
                         break;
@@ -37,9 +43,15 @@ impl Machine {
                     adap.poll()?;
                 }
 
+                #[cfg(mos_verif)]
+                if crate::verif_hooks::yield_point("p:sleep") {
+                    continue;
+                }
                 thread::sleep(Duration::from_millis(50));
             }
             log::debug!("Shutting down machine poller thread.");
+            #[cfg(mos_verif)]
+            crate::verif_hooks::thread_end();
             Ok(())
         });
 
@@ -47,10 +59,14 @@ impl Machine {
     }
 
     pub fn adapter(&self) -> RwLockReadGuard<Box<dyn MachineAdapter + Send + Sync>> {
+        #[cfg(mos_verif)]
+        crate::verif_hooks::point_read("s:adapter.read", &self.adapter);
         self.adapter.read().unwrap()
     }
 
     pub fn adapter_mut(&self) -> RwLockWriteGuard<Box<dyn MachineAdapter + Send + Sync>> {
+        #[cfg(mos_verif)]
+        crate::verif_hooks::point_write("s:adapter.write", &self.adapter);
         self.adapter.write().unwrap()
     }
 
